@@ -112,6 +112,9 @@ def rand_body(rng, size=None):
     for _ in range(k):
         t = "".join(chr(rng.randint(32, 126)) for _ in range(rng.choice([0, 1, 5, 30])))
         items.append(t.encode().hex() if t else "e")
+    if k and rng.random() < 0.15:
+        # an event at / over the read-buffer limit of copy_chunked_async: 65521 bytes still fit, 65522 make the source fail
+        items.insert(rng.randint(0, len(items)), rng.choice(["B65521", "B65522", "B70000"]))
     return "es:" + ",".join(items)
 
 
